@@ -114,6 +114,9 @@ func (r *runner) finish(tr *sim.Trace) {
 	if r.s.SpinFails > 0 {
 		tr.Probe("lock_contended")
 	}
+	if r.s.ReaderBlockedByWriter > 0 {
+		tr.Probe("reader_blocked_by_pending_writer")
+	}
 	tr.State(fmt.Sprintf("%016x", r.s.SchedHash))
 	tr.Event("sched switches=%d preempts=%d spins=%d hash=%016x", r.s.Switches, r.s.Preempts, r.s.SpinFails, r.s.SchedHash)
 	if r.s.Budget {
